@@ -9,21 +9,34 @@ open Ptk.Py
 
 /-! ### paste inserts the data `count` times, unchanged -/
 
-/-- **paste_inserts_n_times, CHARACTERS.**  The new text is the old text with `data.text`
-    repeated `count` times inserted at the cursor (Emacs yank, Vi `P`) or one character after it
-    (Vi `p`); nothing else changes. -/
+/-- **A non-positive count pastes nothing.**  For every data type and paste mode,
+    `paste_clipboard_data(count <= 0)` is the identity on the document (text and cursor). -/
+theorem paste_nonpositive (b : Buf) (d : Clip) (mode : PasteMode) (count : Int) (h : count ≤ 0) :
+    pasteRaw b d mode count = (b.text, (b.cur : Int)) ∧ (pasteBuf b d mode count) = b := by
+  refine ⟨pasteRaw_nonpos b d mode count h, ?_⟩
+  simp [pasteBuf, pasteRaw_nonpos b d mode count h]
+
+/-- **paste_inserts_n_times, CHARACTERS.**  For every count (a count `≤ 0` means zero times) the
+    new text is the old text with `data.text` repeated `count` times inserted at the cursor (Emacs
+    yank, Vi `P`) or one character after it (Vi `p`); nothing else changes.  For a positive count
+    the cursor ends after the inserted text (one before it for `P`). -/
 theorem paste_chars (b : Buf) (d : Clip) (hty : d.ty = .chars) (mode : PasteMode) (count : Int) :
     let q := if mode = .viAfter then b.cur + 1 else b.cur
     (pasteRaw b d mode count).1 = b.text.take q ++ repeatText d.text count.toNat ++ b.text.drop q ∧
-    (pasteRaw b d mode count).2 =
-      (b.cur : Int) + (d.text.length : Int) * count - (if mode = .viBefore then 1 else 0) := by
-  simp only [pasteRaw, hty, rep, Buf.before, Buf.after]
-  cases mode <;> simp
+    (0 < count → (pasteRaw b d mode count).2 =
+      (b.cur : Int) + (d.text.length : Int) * count - (if mode = .viBefore then 1 else 0)) := by
+  by_cases hc : count ≤ 0
+  · have h0 : count.toNat = 0 := by omega
+    simp only [pasteRaw_nonpos b d mode count hc, h0, repeatText]
+    exact ⟨by simp, fun h => by omega⟩
+  · simp only [pasteRaw, if_neg hc, hty, rep, Buf.before, Buf.after]
+    cases mode <;> simp
 
 example : (pasteRaw { text := "abc".toList, cur := 1 } ⟨"XY".toList, .chars⟩ .viAfter 2).1 = "abXYXYc".toList := by
   decide
 
-/-- **paste_inserts_n_times, LINES.**  The lines of the new text are the old lines with
+/-- **paste_inserts_n_times, LINES.**  For every count (`≤ 0` = zero copies, the text is then
+    unchanged) the lines of the new text are the old lines with
     `count` copies of the data (split at its own newlines) inserted above the cursor line (`P`) or
     below it (`p`, Emacs yank); every old line is kept unchanged and in order. -/
 theorem paste_lines (b : Buf) (d : Clip) (hty : d.ty = .lines) (mode : PasteMode) (count : Int) :
@@ -31,7 +44,11 @@ theorem paste_lines (b : Buf) (d : Clip) (hty : d.ty = .lines) (mode : PasteMode
     let k := if mode = .viBefore then row b else row b + 1
     splitOn '\n' (pasteRaw b d mode count).1 =
       lines.take k ++ (List.replicate count.toNat d.text).flatMap (splitOn '\n') ++ lines.drop k := by
-  simp only [pasteRaw, hty]
+  by_cases hc : count ≤ 0
+  · have h0 : count.toNat = 0 := by omega
+    simp only [pasteRaw_nonpos b d mode count hc, h0, List.replicate_zero, List.flatMap_nil, List.append_nil,
+      List.take_append_drop]
+  simp only [pasteRaw, if_neg hc, hty]
   have hne : splitOn '\n' b.text ≠ [] := splitOn_ne_nil _ _
   have hl : ∀ l ∈ splitOn '\n' b.text, '\n' ∉ l := not_mem_of_mem_splitOn _ _
   have key : ∀ k, splitOn '\n' (join ['\n'] ((splitOn '\n' b.text).take k ++ List.replicate count.toNat d.text
@@ -56,10 +73,11 @@ theorem paste_lines (b : Buf) (d : Clip) (hty : d.ty = .lines) (mode : PasteMode
 example : (pasteRaw { text := "a\nb".toList, cur := 0 } ⟨"X".toList, .lines⟩ .viAfter 2).1 = "a\nX\nX\nb".toList := by
   decide
 
-/-- **paste_inserts_n_times, BLOCK.**  Data line `i` is inserted, `count` times, into buffer line
+/-- **paste_inserts_n_times, BLOCK** (positive count; see `paste_nonpositive` otherwise).  Data line `i` is inserted, `count` times, into buffer line
     `row + i` at the paste column (the line is first padded with spaces up to that column; a line
     below the end of the buffer is created); all other lines are unchanged. -/
-theorem paste_block (b : Buf) (d : Clip) (hty : d.ty = .block) (mode : PasteMode) (count : Int) :
+theorem paste_block (b : Buf) (d : Clip) (hty : d.ty = .block) (mode : PasteMode) (count : Int)
+    (hpos : 0 < count) :
     let lines := splitOn '\n' b.text
     let ds := splitOn '\n' d.text
     let scol := col b + (if mode = .viBefore then 0 else 1)
@@ -69,7 +87,7 @@ theorem paste_block (b : Buf) (d : Clip) (hty : d.ty = .block) (mode : PasteMode
       (∀ i, i < ds.length →
         res[row b + i]? = some (insAt scol count ((lines[row b + i]?).getD []) ((ds[i]?).getD []))) ∧
       (∀ j, row b + ds.length ≤ j → res[j]? = lines[j]?) := by
-  simp only [pasteRaw, hty]
+  simp only [pasteRaw, if_neg (show ¬ count ≤ 0 by omega), hty]
   exact ⟨_, rfl, blockGo_spec _ count _ (row b) _ (Nat.le_of_lt (row_lt_lines b))⟩
 
 example : (pasteRaw { text := "ab\nc".toList, cur := 1 } ⟨"X\nY\nZ".toList, .block⟩ .viAfter 2).1
@@ -297,7 +315,7 @@ theorem vi_dd_then_P_restores (max : Nat) (hmax : 0 < max) (s : VSt) (count : Op
       have e : (List.filter isNl ['\n']).length = 1 := by decide
       rw [e]; omega
   -- the paste
-  simp only [pasteRaw, hrow, if_true, fixNav_text]
+  simp only [pasteRaw, show ¬ (((1 : Nat) : Int) ≤ 0) by omega, if_false, hrow, if_true, fixNav_text]
   rw [← hnb]
   simp only
   rw [htext, splitOn_join _ _ (by simp [hB]), flatMap_splitOn_lines _ _
